@@ -1,5 +1,256 @@
-//! C19 - monitor not written yet.
+//! C19 - PKGPATH accepts only category/package forms; Depend delegates.
+//!
+//! Refuting events: `PkgPath::new(s).is_ok()` differs from the rule; for
+//! accepted inputs the short/full paths are not `cat/pkg` and
+//! `../../cat/pkg` (compared component-wise); the two spellings are unequal;
+//! re-parsing `as_path()`/`as_full_path()` gives a different value.
+//! `Depend::new(s).is_ok()` differs from "exactly one ':' and both halves
+//! valid", or its parts differ from parsing the halves directly.
 
-use crate::fw::Cx;
+use crate::fw::{show, CaseResult, Cx, Ev, Tier};
+use crate::gen::misc as gm;
+use crate::oracle::misc as om;
+use crate::rng::hash_bytes;
+use pkgsrc::{Depend, Pattern, PkgPath};
+use std::str::FromStr;
 
-pub fn run(_cx: &mut Cx) {}
+fn check_path(ev: &mut Ev, s: &str) -> CaseResult {
+    let rule = om::pkgpath_rule(s);
+    let got = PkgPath::new(s);
+    let got_fs = PkgPath::from_str(s);
+    ev.evals(2);
+    let shape = om::shape(s);
+    match (rule, got) {
+        (None, Err(_)) => {
+            ev.count(&format!("path/rejected/{shape}"));
+            if got_fs.is_ok() {
+                return Err("new() rejects but from_str() accepts".into());
+            }
+            Ok(())
+        }
+        (None, Ok(v)) => Err(format!(
+            "accepted (short {:?}, full {:?}) although the components are {:?}{}",
+            v.as_path(),
+            v.as_full_path(),
+            om::normalise(s).segs,
+            if om::normalise(s).absolute { " (absolute)" } else { "" }
+        )
+        .into()),
+        (Some((c, p)), Err(_)) => {
+            Err(format!("rejected although it is {c}/{p} component-wise").into())
+        }
+        (Some((c, p)), Ok(v)) => {
+            ev.count(&format!("path/accepted/{shape}"));
+            match got_fs {
+                Ok(w) if w == v => {}
+                _ => return Err("from_str() differs from new()".into()),
+            }
+            // accessors, compared component-wise with the harness normaliser
+            let short = v
+                .as_path()
+                .to_str()
+                .ok_or_else(|| "as_path() is not UTF-8".to_string())?;
+            let full = v
+                .as_full_path()
+                .to_str()
+                .ok_or_else(|| "as_full_path() is not UTF-8".to_string())?;
+            let ns = om::normalise(short);
+            let nf = om::normalise(full);
+            ev.evals(2);
+            if ns.absolute || ns.segs != [c, p] {
+                return Err(format!("as_path() is {short:?}, expected {c}/{p}").into());
+            }
+            if nf.absolute || nf.segs != ["..", "..", c, p] {
+                return Err(format!("as_full_path() is {full:?}, expected ../../{c}/{p}").into());
+            }
+            // both spellings give one value
+            let sp_short = format!("{c}/{p}");
+            let sp_full = format!("../../{c}/{p}");
+            for (what, text) in [
+                ("short spelling", sp_short.as_str()),
+                ("full spelling", sp_full.as_str()),
+                ("as_path() output", short),
+                ("as_full_path() output", full),
+            ] {
+                ev.eval();
+                match PkgPath::new(text) {
+                    Ok(w) => {
+                        if w != v {
+                            return Err(format!(
+                                "value differs from PkgPath::new({text:?}) ({what}): {v:?} vs {w:?}"
+                            )
+                            .into());
+                        }
+                    }
+                    Err(_) => {
+                        return Err(format!("{what} {text:?} is rejected").into());
+                    }
+                }
+            }
+            if s != sp_short && s != sp_full {
+                ev.nontrivial(hash_bytes(s.as_bytes()));
+            }
+            Ok(())
+        }
+    }
+}
+
+fn check_depend(ev: &mut Ev, s: &str) -> CaseResult {
+    let colons = s.bytes().filter(|&b| b == b':').count();
+    let got = Depend::new(s);
+    let got_fs = Depend::from_str(s);
+    ev.eval();
+    if got.is_ok() != got_fs.is_ok() {
+        return Err("new() and from_str() disagree on acceptance".into());
+    }
+    if colons != 1 {
+        ev.count(&format!("depend/colons-{}/rejected", colons.min(3)));
+        return match got {
+            Err(_) => {
+                ev.nontrivial(hash_bytes(s.as_bytes()));
+                Ok(())
+            }
+            Ok(d) => Err(format!(
+                "accepted with {colons} colons (pattern {:?}, pkgpath {:?})",
+                d.pattern(),
+                d.pkgpath()
+            )
+            .into()),
+        };
+    }
+    let i = s.find(':').unwrap_or(0);
+    let (left, right) = (&s[..i], &s[i + 1..]);
+    let pat = Pattern::new(left);
+    let path = PkgPath::new(right);
+    let class = match (pat.is_ok(), path.is_ok()) {
+        (true, true) => "both-valid",
+        (false, true) => "bad-pattern",
+        (true, false) => "bad-path",
+        (false, false) => "both-bad",
+    };
+    ev.count(&format!("depend/colons-1/{class}"));
+    match (pat, path, got) {
+        (Ok(pat), Ok(path), Ok(d)) => {
+            ev.evals(2);
+            if d.pattern() != &pat {
+                return Err(format!(
+                    "pattern() is {:?}, Pattern::new({left:?}) is {pat:?}",
+                    d.pattern()
+                )
+                .into());
+            }
+            if d.pkgpath() != &path {
+                return Err(format!(
+                    "pkgpath() is {:?}, PkgPath::new({right:?}) is {path:?}",
+                    d.pkgpath()
+                )
+                .into());
+            }
+            if let Ok(d2) = got_fs {
+                if d2 != d {
+                    return Err("from_str() value differs from new()".into());
+                }
+            }
+            ev.nontrivial(hash_bytes(s.as_bytes()));
+            Ok(())
+        }
+        (Ok(_), Ok(_), Err(e)) => {
+            Err(format!("rejected ({e}) although both halves parse on their own").into())
+        }
+        (pat, path, Ok(_)) => Err(format!(
+            "accepted although pattern half valid = {}, path half valid = {}",
+            pat.is_ok(),
+            path.is_ok()
+        )
+        .into()),
+        (_, _, Err(_)) => {
+            ev.nontrivial(hash_bytes(s.as_bytes()));
+            Ok(())
+        }
+    }
+}
+
+pub fn run(cx: &mut Cx) {
+    cx.default_budget();
+    for k in [
+        "path/accepted/NN",
+        "path/accepted/PPNN",
+        "path/rejected/NNN",
+        "path/rejected/PNN",
+        "path/rejected/abs:NN",
+        "path/rejected/DNN",
+        "path/rejected/NNNN",
+        "path/rejected/PPNNN",
+        "path/rejected/PPN",
+        "depend/colons-0/rejected",
+        "depend/colons-1/both-valid",
+        "depend/colons-1/bad-pattern",
+        "depend/colons-1/bad-path",
+        "depend/colons-2/rejected",
+        "depend/colons-3/rejected",
+    ] {
+        cx.ev.require(k);
+    }
+
+    // (a) exhaustive: <= 6 segments from SEGS, optional leading '/', '/' vs '//'.
+    let stride = cx.pick_tier(96u64, 8, 1, 1);
+    let mut i = 0u64;
+    for n in 0..=6usize {
+        let count = 5usize.pow(n as u32);
+        for code in 0..count {
+            for leading in [false, true] {
+                for double in [false, true] {
+                    i += 1;
+                    if i % stride != 0 || !cx.mine(i / stride) {
+                        continue;
+                    }
+                    let s = gm::exhaustive_path(n, code, leading, double);
+                    cx.check(
+                        || format!("exhaustive path \"{}\"", show(s.as_bytes())),
+                        |ev| {
+                            ev.count("workload/exhaustive");
+                            check_path(ev, &s)
+                        },
+                    );
+                }
+            }
+        }
+    }
+    cx.ev.max("max/exhaustive_path_strings", i);
+
+    // (b) seeded longer / odd paths
+    let n = cx.per_shard(200, 10_000, 160_000, 1_600_000);
+    let mut r = cx.stream("odd-paths");
+    for _ in 0..n {
+        let s = gm::odd_path(&mut r);
+        cx.check(
+            || format!("odd path \"{}\"", show(s.as_bytes())),
+            |ev| {
+                ev.count("workload/odd");
+                check_path(ev, &s)
+            },
+        );
+    }
+
+    // (c) Depend: every pattern x path x colon form
+    let stride = if cx.tier == Tier::Mini { 24u64 } else { 1 };
+    let mut i = 0u64;
+    for p in gm::DEP_PATTERNS.iter() {
+        for q in gm::DEP_PATHS.iter() {
+            for s in gm::depend_forms(p, q) {
+                i += 1;
+                if i % stride != 0 || !cx.mine(i / stride) {
+                    continue;
+                }
+                cx.check(
+                    || format!("depend \"{}\"", show(s.as_bytes())),
+                    |ev| {
+                        ev.count("workload/depend");
+                        check_depend(ev, &s)
+                    },
+                );
+            }
+        }
+    }
+    cx.ev.max("max/depend_strings", i);
+}
